@@ -43,25 +43,35 @@ Theorem C16_field_never_panics : forall o a b p,
 Proof. exact field_never_panics. Qed.
 Print Assumptions C16_field_never_panics.
 
-(* bounded work of `<<` and `>>` (third audit: the former statement was about two
-   definitions that copied the guard).  Model.Field.shift_w is the mutual recursion
-   shift_l <-> shift_r AS WRITTEN (a Fixpoint on fuel; its leaves are shl_direct /
-   shr_direct themselves), instrumented with the calls it makes, the exponent of the
-   power of two it materialises and the bit size of the largest value computed from
-   it.  For EVERY modulus p > 0 and ALL integers l, r (negative and non-canonical
-   ones included) and every fuel >= 2: its value is the shift_l / shift_r of the
-   refinement theorems, the recursion ends (no OutOfFuel) after at most two calls, a
-   power 2^k is built only for a k below the mask width or the operand's bit size
-   (and k is the count or p - count), and no intermediate value exceeds
-   bits(l) + bits(p) bits: the work is bounded by the bit sizes, never by the count. *)
+(* bounded work of `<<` and `>>`.  Model.Field.shift_w is the mutual recursion
+   shift_l <-> shift_r AS WRITTEN (a Fixpoint on fuel), its value and its work record
+   (calls made, exponent of the power of two materialised, bit size of the largest of
+   that power / the product formed from it / the power the mask is made of) produced
+   by ONE definition: a power of two enters a value only through Field.pow2_tick, which
+   writes the record (fourth audit: the record used to come from a second copy of the
+   guards, and nothing tied it to the 2^k of the value).  For EVERY modulus p > 0, ALL
+   integers l, r (negative and non-canonical ones included) and every fuel >= 2:
+   the value is the shift_l / shift_r of the refinement theorems; the recursion ends
+   (no OutOfFuel) after at most two calls; the record says `2^k built` EXACTLY when the
+   value is the one formed from 2^k - then k is the count or p - count, fits a machine
+   word, and is below the mask width (value (l * 2^k & mask) mod p) or below the
+   operand's bit size (value l / 2^k); when it says that none was built the value is 0
+   or the error; the recorded sizes stay within bits(l) + bits(p) + 1.  Not in the
+   record (and so not in this statement): `field - right`, `field / 2`, the results
+   of `&` `/` `%`, the digit vectors of to_radix_le. *)
 Theorem C16_shift_bounded_work : forall fuel (left : bool) l r p,
   0 < p -> (2 <= fuel)%nat ->
   fst (shift_w fuel left l r p) = (if left then shift_l l r p else shift_r l r p) /\
   fst (shift_w fuel left l r p) <> OutOfFuel /\
   (1 <= sw_calls (snd (shift_w fuel left l r p)) <= 2)%nat /\
   (forall k, sw_built (snd (shift_w fuel left l r p)) = Some k ->
-     0 <= k < 2 ^ 64 /\ k < Z.max (radix_len p) (bits l) /\ (r = k \/ r = p - k)) /\
-  0 <= sw_bits (snd (shift_w fuel left l r p)) <= bits l + radix_len p.
+     0 <= k < 2 ^ 64 /\ (r = k \/ r = p - k) /\
+     ((k < radix_len p /\ fst (shift_w fuel left l r p) = Ok (modulus (Z.land (l * 2 ^ k) (mask p)) p)) \/
+      (k < bits l /\ fst (shift_w fuel left l r p) = Ok (Z.quot l (2 ^ k))))) /\
+  (sw_built (snd (shift_w fuel left l r p)) = None ->
+     sw_bits (snd (shift_w fuel left l r p)) = 0 /\
+     (fst (shift_w fuel left l r p) = Ok 0 \/ fst (shift_w fuel left l r p) = Err EDivisionByZero)) /\
+  0 <= sw_bits (snd (shift_w fuel left l r p)) <= bits l + radix_len p + 1.
 Proof. exact shift_bounded_work. Qed.
 Print Assumptions C16_shift_bounded_work.
 
@@ -230,6 +240,7 @@ Proof. split; [vm_compute; reflexivity|]. split; [vm_compute; reflexivity|]. eex
 Example C16_shift_work_witnesses :
   fst (shift_w 1 true 5 6 7) = OutOfFuel /\
   shift_w 2 true 5 6 7 = (Ok 2, {| sw_calls := 2; sw_built := Some 1; sw_bits := 2 |}) /\
+  shift_w 2 true 5 1 7 = (Ok 2, {| sw_calls := 1; sw_built := Some 1; sw_bits := 4 |}) /\
   shift_w 2 true 1 100000000000 21888242871839275222246405745257275088548364400416034343698204186575808495617
     = (Ok 0, {| sw_calls := 1; sw_built := None; sw_bits := 0 |}) /\
   shift_w 64 false (-5) (-3) 7 = (Err EDivisionByZero, {| sw_calls := 1; sw_built := None; sw_bits := 0 |}) /\
